@@ -419,6 +419,8 @@ def run(ctx):
   check_escaping(ctx)
   check_numbering_header(ctx)
   check_line_position(ctx)
+  for q_ in ("ttconv.srt.writer:SrtContext.append_element", "ttconv.vtt.writer:VttContext.process_inline_element"):
+    shape.check_independent_updates(ctx, ctx.ix.func(q_))
   npre = 0
   for mn in common.ISD_FILTERS:
     for g in ctx.ix.funcs_in(mn):
